@@ -47,6 +47,36 @@ CHECKS = {
    note="Trusted: torch Adam semantics with eps=0; depth d realised by a DepthSequential of d layers.",
    technique="TLA+ identity checked by TLC + replay of TLC-evaluated expectations on real optimizer steps",
    design="4/C12"),
+ "C01": dict(
+   spec="spec/ScaledOps.tla, ScaledOps_MC.tla, ScaledOps_Trace.tla",
+   text="ScaledOps specifies the op tables (which ops exist, which report PyTorch's value exactly, which arguments are rejected) and a call-log memo machine (a configuration never maps to two factor classes). TLC checks the tables and that the memo machine refuses a data-dependent factor. Every op of the functional namespace x batch ranks 0-3 x hyperparameters x every constraint name x dtypes is then called on real tensors (two data draws + a repeated call) and compared element-wise with the torch reference; the recorded log (factor classes, shape/dtype/immutability/residual flags, expected rejections) is validated event by event by ScaledOps_Trace.",
+   note="The numeric comparison (least-squares scalar, relative residual, tolerance by dtype; rms_norm at 5e-6 because the library computes its statistic in float32) is harness-side; TLC decides functional dependence, exact-1, and rejections from the flags. All factors are free positive constants for this property.",
+   technique="TLA+ memo-machine spec; trace validation of the real call log by TLC",
+   design="4/C01"),
+ "C02": dict(
+   spec="spec/Tape.tla, Tape_MC.tla, ScaledOps.tla, ScaledOps_Trace.tla",
+   text="Tape specifies scale_fwd/scale_bwd on a (value multiplier, gradient multiplier) pair; TLC explores every chain of <= 3 primitives over 10 signed rational factors (0, negatives, +-1000) and emits each with its expected multipliers, which are replayed on the real primitives. The C01 configuration space x every differentiable input x two data draws x two upstream gradients + a repeated call is run against autograd of the torch reference; the log is validated by ScaledOps_Trace (one positive factor class per (configuration, input); exact direction).",
+   note="As C01; mean-reduced losses use the sum-reduced reference for gradients.",
+   technique="TLA+ tape spec + TLC chain enumeration replayed on the primitives; trace validation of gradient logs",
+   design="4/C02"),
+ "C03": dict(
+   spec="spec/ScaledOps.tla (Scale2, Count, CountSet), ScaledOps_MC.tla, ScaledOps_Eval.tla",
+   text="The pinned squared scales are written as the code computes them, next to an independent term-count model (explicit index sets of each contraction). TLC checks Scale2*Count = 1 for every op/slot over all small shapes (exceptions explicit), closed-form counts = index-set counts, residual weights' squares = 1. For seeded larger configurations TLC returns Scale2 and Count as rationals; the harness compares the scalars fitted on the real op and the term counts measured on the all-ones torch reference: three-way agreement.",
+   note="Fitted scalars at 1e-9 (rms_norm 1e-5); conv input-gradient count is the mean over one stride period at interior positions; padded convolutions are excepted for output/input/weight as the property states.",
+   technique="TLA+ term-count model + TLC; replay of TLC-evaluated scales/counts against fitted scalars and measured counts",
+   design="4/C03"),
+ "C05": dict(
+   spec="spec/Constraints.tla, Constraints_MC.tla, ScaledOps.tla (Group), ScaledOps_Eval.tla",
+   text="The six constraint rules are specified over exact rationals (geometric mean through n-th powers); TLC checks bounds, H<=G<=A, symmetry, homogeneity, selection and collapse for all tuples of 1-4 scales and refutes a swapped-means deviation; every emitted tuple is replayed on the real gmean/hmean/amean/apply_constraint (x 1e-6..1e6), 4-6-tuples are evaluated by TLC. For ops, TLC yields the symbolic constrained scale of each slot of (op, constraint) over free symbols bound to the scalars observed without constraint; the harness evaluates it and compares forward and constrained input-gradient scalars (collapse), weight/bias scalars (unchanged), fixed-group ops, invalid names, and runs gradcheck on the constrained inputs.",
+   note="gradcheck (float64 finite differences) is a harness observation; scalars compared at 1e-9.",
+   technique="TLA+ rational spec of the rules + TLC; symbolic expectations from TLC evaluated against observed scalars",
+   design="4/C05"),
+ "C06": dict(
+   spec="spec/Tape.tla, Tape_MC.tla",
+   text="Residual programs are ordered forests of layers whose four edges carry (forward, backward) multipliers r_i/k_i; TLC enumerates every program with <= 4 (thorough 6; 7 without emission) layers and checks that on every path the forward and backward coefficient bags coincide (true gradient), that forward weights are r_i/k_i and that the add leaves the branch gradient unattenuated, refuting three deviations. Each emitted program with its path coefficients is built from the real residual_split/residual_add/residual_apply: with linear branches output and x.grad must equal the sum over the spec's paths; with nonlinear / unit-scaled branches the recursive closed form and its autograd; hooks check the unattenuated branch gradient; residual_apply must be bitwise the split/f/add sequence.",
+   note="float64 at 1e-10; taus in [1e-3, 1e3].",
+   technique="TLA+ tape/path-algebra spec + TLC program enumeration replayed on the real residual ops",
+   design="4/C06"),
 }
 CHECKS = dict(sorted(CHECKS.items()))
 
